@@ -8,7 +8,7 @@
 (***************************************************************************)
 EXTENDS XGrammar, XGen
 
-CONSTANTS MaxLen, EmitOn, Alphabet   \* Alphabet: "core" | "ops" | "paths"
+CONSTANTS MaxLen, EmitOn, Alphabet   \* Alphabet: "core" | "ops" | "paths" | "lex" | "split"
 VARIABLES s
 N_(x) == NameL(x)
 Lexemes ==
@@ -19,6 +19,10 @@ Lexemes ==
   ELSE IF Alphabet = "ops" THEN
     << N_(<<"a">>), [k |-> "num", v |-> NInt(2)], [k |-> "num", v |-> NInt(10)], N_(<<"a","n","d">>),   \* (10: also spelled 010 and 10.0 by the renderer) N_(<<"o","r">>), N_(<<"m","o","d">>), N_(<<"d","i","v">>),
        P_("+"), P_("-"), P_("*"), P_("="), P_("!="), P_("<"), P_("<="), P_(">"), P_(">="), P_("|"), P_("("), P_(")") >>
+  ELSE IF Alphabet = "split" THEN
+    \* token sequences that spell the same characters when written without spaces: a//b and a / /b, 1<=1 and 1< =1, a-b and
+    \* a - b, .. and . . - the verdict on a string depends on its tokens, never on what was compiled before (explored to length 4)
+    << N_(<<"a">>), [k |-> "num", v |-> NInt(1)], P_("/"), P_("//"), P_("<"), P_("="), P_("<="), P_("-"), N_(<<"a","-","b">>), P_("."), P_("..") >>
   ELSE IF Alphabet = "lex" THEN
     << N_(<<"_","x">>), N_(<<"a">>), [k |-> "numdot", v |-> NInt(1)], [k |-> "num", v |-> Rat(1, 2)], [k |-> "num", v |-> Rat(3, 2)], P_("/"), P_("+"), P_("("), P_(")"), P_("@"),
        [k |-> "var", pre |-> "p", lo |-> <<"v">>], [k |-> "lit", s |-> <<"\"", "sp", "w2", "\"">>], [k |-> "lit", s |-> <<"'">>], [k |-> "qname", pre |-> "p", lo |-> <<"c","o","u","n","t">>], N_(<<"w2","a">>) >>
